@@ -12,7 +12,12 @@ READY = True
 LEAN_MODULES = ["RedunModel.Props.C38"]
 LEAN_DRIVERS = ["C01"]
 THEOREMS = [
+    "RedunModel.C38.subrun_inner",
+    "RedunModel.C38.covers_root",
+    "RedunModel.C38.covers_override",
+    "RedunModel.C38.innerCtx_eq",
     "RedunModel.C38.subrun_equiv",
+    "RedunModel.C38.subrun_equiv_extend",
     "RedunModel.C38.subrun_value",
     "RedunModel.C38.subrun_error",
     "RedunModel.C38.subrun_nested",
@@ -97,12 +102,16 @@ class Box:
             f.write(R._template())
         self.uri = "sqlite:///" + path
 
-    def scheduler(self):
+    def scheduler(self, config_context=None):
+        import json
+
         from redun import Scheduler
         from redun.config import Config
         cfg = {"backend": {"db_uri": self.uri},
                "executors.default": {"type": "local", "max_workers": "4", "mode": "thread", "start_method": "fork"},
                "executors.process": {"type": "local", "max_workers": "2", "mode": "process", "start_method": "fork"}}
+        if config_context:
+            cfg["scheduler"] = {"context": json.dumps(config_context)}
         s = Scheduler(config=Config(cfg))
         s.load()
         return s
@@ -285,6 +294,142 @@ def run_program(ctx, G, R, C12, name, e, sx, rep_e, rep_sub, configs, pending):
         one_config(ctx, G, R, C12, name, e, sx, outs_e, has_unk_e, direct, ne, cache, cv, pending, executor=ex)
 
 
+# ------------------------------------------------------------------------------------------------ context forwarding
+CTX_SCENARIOS = [
+    # (config context, Scheduler.run(context=...), update_context on the calling task)
+    ({"k": 2, "j": 7}, {}, {}),
+    ({"k": 2, "j": 7}, {}, {"k": 3}),
+    ({"k": 2, "j": 7}, {"m": 5}, {}),
+    ({}, {"k": 4, "j": 1}, {"m": 2}),
+    ({"j": 7}, {"k": 6}, {"j": 0, "k": 3}),
+    ({}, {}, {"k": 3, "m": 2, "j": 1}),
+]
+
+
+def ctx_kws(d):
+    from core import hx
+    from props import _evalgen as G
+    return "(" + " ".join("(s%s %s)" % (hx(k), G.to_sx(v)) for k, v in d.items()) + ")"
+
+
+def ctx_corpus():
+    from props import _evallib as L
+    return {
+        "ctx-flow": L.ctx_flow(5),
+        "ctx-body": L.ctx_body(1),
+        "ctx-inner-override": L.ctx_inner_override(2),
+        "ctx-default-arg": L.add(L.ctx_scale(2), b=L.ctx_offset(1)),
+        "ctx-cond": L.choose(L.ctx_scale(1) == 3, L.ctx_offset(1), 5),
+    }
+
+
+def context_case(ctx, G, R, name, e, sx, scen, caller, ne, reps):
+    """sub-workflow `e` evaluated directly and through subrun under the same effective context.
+    caller: "top" (subrun is the root expression), "task" (subrun inside a job that carries the update_context override),
+    "noprov" (that job has prov=False: subrun forces a new execution)"""
+    from redun.expression import quote
+    from redun.scheduler import subrun
+
+    from props import _evallib as L
+    cfg, runc, ov = scen
+    if caller == "top":
+        ov = {}
+    eff = dict(cfg)
+    eff.update(runc)
+    eff.update(ov)
+    rep = reps[(sx, tuple(sorted(eff.items())), tuple(sorted(cfg.items())))]
+    outs, has_unk = G.parse_outs(rep)
+    case = {"program": name, "expr": sx, "context_case": True, "config_context": cfg, "run_context": runc, "update_context": ov,
+            "caller": caller, "new_execution": ne}
+
+    def one(expr):
+        box = Box(R)
+        try:
+            o, _ = R.run_free(expr, sched=box.scheduler(cfg), timeout=90, context=dict(runc))
+            return o
+        finally:
+            box.close()
+
+    def wrap(t):
+        if caller == "noprov":
+            t = t.options(prov=False)
+        return t.update_context(dict(ov)) if ov else t
+
+    if caller == "top":
+        direct = one(R.clone(e))
+        sub = one(subrun(R.clone(e), executor="default", new_execution=ne))
+    else:
+        direct = one(wrap(L.direct_of)(quote(R.clone(e))))
+        sub = one(wrap(L.sub_of)(quote(R.clone(e)), ne))
+    if direct not in outs and not has_unk:
+        ctx.mismatch("direct evaluation under a context is not among the model's outcomes", case=case,
+                     model=sorted(map(G.show, outs)), impl=G.show(direct), signature="C38-context-direct-differs-from-model")
+    bad = None
+    if sub not in outs and not has_unk:
+        bad = "C38-context-not-forwarded" if sub[0] == direct[0] == "ok" else "C38-context-outcome-differs"
+    elif len(outs) == 1 and not has_unk and sub != direct:
+        bad = "C38-context-not-forwarded"
+    if bad:
+        ctx.mismatch("subrun under a context is not among the model's outcomes for that context", case=case,
+                     model=sorted(map(G.show, outs)), impl=G.show(sub), signature=bad)
+        ctx.violation(bad, "subrun(e) does not see the context direct evaluation sees (config context / Scheduler.run(context=) / "
+                      "update_context on the caller)", case=case, expected={"direct": G.show(direct), "model": sorted(map(G.show, outs))},
+                      actual=G.show(sub))
+    ctx.case(key=("ctx", sx, repr(sorted(eff.items())), caller, ne), sample={"program": name, "expr": sx[:200], "context": eff,
+                                                                           "caller": caller, "new_execution": ne,
+                                                                           "direct": G.show(direct)[:100], "subrun": G.show(sub)[:100]},
+             mode="context", caller=caller, new_execution=str(ne), same_as_direct=(sub == direct),
+             sources="%s%s%s" % ("C" if cfg else "-", "R" if runc else "-", "U" if ov else "-"))
+
+
+def context_section(ctx, G, R, base):
+    rng = ctx.rng
+    progs = [(n, e, G.to_sx(e)) for n, e in ctx_corpus().items()]
+    for i in range(ctx.n(8, 60)):
+        prng = random.Random(base * 5 + i)
+        gen = G.Gen(prng, p_err=prng.choice([0.0, 0.0, 0.1]), max_fan=2)
+        gen.ctx_heavy = True
+        for _ in range(30):
+            try:
+                e = gen.ctx_program(prng.choice([1, 2, 2, 3]))
+                progs.append(("c%d" % i, e, G.to_sx(e)))
+                break
+            except G.Unsupported:
+                pass
+    plan = []
+    for i, (name, e, sx) in enumerate(progs):
+        scens = [CTX_SCENARIOS[(i + j) % len(CTX_SCENARIOS)] for j in range(2 if ctx.tier == "quick" else 4)]
+        for j, scen in enumerate(scens):
+            caller = ["task", "top", "noprov"][(i + j) % 3]
+            ne = True if (i + j) % 2 == 0 else False
+            plan.append((name, e, sx, scen, caller, ne))
+            if ctx.tier != "quick":
+                plan.append((name, e, sx, scen, caller, not ne))
+    keys, lines = [], []
+    for name, e, sx, (cfg, runc, ov), caller, ne in plan:
+        eff = dict(cfg)
+        eff.update(runc)
+        if caller != "top":
+            eff.update(ov)
+        key = (sx, tuple(sorted(eff.items())), tuple(sorted(cfg.items())))
+        if key not in keys:
+            keys.append(key)
+            lines.append("(evalc i%d %s %s %s)" % (FUEL, ctx_kws(eff), ctx_kws(cfg), sx))
+            lines.append("(evalc i%d %s %s (subrun %s T))" % (FUEL, ctx_kws(eff), ctx_kws(cfg), sx))
+            lines.append("(evalc i%d %s %s (subrun %s F))" % (FUEL, ctx_kws(eff), ctx_kws(cfg), sx))
+    replies = ctx.model("C01", lines)
+    reps = {}
+    for i, key in enumerate(keys):
+        r0, rt, rf = replies[3 * i:3 * i + 3]
+        reps[key] = r0
+        if G.parse_outs(rt) != G.parse_outs(r0) or G.parse_outs(rf) != G.parse_outs(r0):
+            ctx.mismatch("the model's outcome set of subrun(e) under a context differs from that of e (contradicts subrun_equiv)",
+                         case={"expr": key[0], "context": key[1]}, model=rt[:200] + " / " + rf[:200], impl=r0[:200],
+                         signature="C38-model-self-check")
+    for name, e, sx, scen, caller, ne in plan:
+        context_case(ctx, G, R, name, e, sx, scen, caller, ne, reps)
+
+
 def run(ctx):
     from props import C12
     from props import _evalgen as G
@@ -323,6 +468,7 @@ def run(ctx):
                 cfgs.append((rng.random() < 0.5, True, None, "process"))
         run_program(ctx, G, R, C12, name, e, sx, rep_e, {False: rep_f, True: rep_t}, cfgs, pending)
     C12.flush_lookups(ctx, pending)
+    context_section(ctx, G, R, base)
 
 
 def replay(ctx, case):
@@ -335,6 +481,17 @@ def replay(ctx, case):
         return run(ctx)
     e = G.from_sx(sx)
     sx2 = G.to_sx(e)
+    if c.get("context_case"):
+        cfg, runc, ov = c.get("config_context") or {}, c.get("run_context") or {}, c.get("update_context") or {}
+        eff = dict(cfg)
+        eff.update(runc)
+        eff.update(ov)
+        rep = ctx.model("C01", ["(evalc i%d %s %s %s)" % (FUEL, ctx_kws(eff), ctx_kws(cfg), sx2)])[0]
+        print("replay program:", sx2[:400], "context", eff)
+        print("model outcomes:", rep[:400])
+        reps = {(sx2, tuple(sorted(eff.items())), tuple(sorted(cfg.items()))): rep}
+        return context_case(ctx, G, R, c.get("program", "replay"), e, sx2, (cfg, runc, ov), c.get("caller", "task"),
+                            bool(c.get("new_execution")), reps)
     reps = ctx.model("C01", ["(eval i%d %s)" % (FUEL, sx2), "(eval i%d (subrun %s F))" % (FUEL, sx2),
                              "(eval i%d (subrun %s T))" % (FUEL, sx2)])
     print("replay program:", sx2[:500])
